@@ -335,6 +335,11 @@ class MultilevelSolver:
         """
         self.levels[0].A = A
 
+        # converted copies of the old matrix cached on the level (Acsr, Acsc, Absr...)
+        for name in [n for n in vars(self.levels[0])
+                     if n.startswith(('Acsr', 'Acsc', 'Absr'))]:
+            delattr(self.levels[0], name)
+
         smoothing.rebuild_smoother(self.levels[0])
 
     def psolve(self, b):
